@@ -261,10 +261,12 @@ impl RuntimeEnv {
             const MB: u64 = 1024 * 1024;
             const KB: u64 = 1024;
 
+            // Use the largest unit that represents the size exactly, so that
+            // the displayed text denotes the same number of bytes
             match size {
-                s if s >= GB => format!("{}G", s / GB),
-                s if s >= MB => format!("{}M", s / MB),
-                s if s >= KB => format!("{}K", s / KB),
+                s if s >= GB && s % GB == 0 => format!("{}G", s / GB),
+                s if s >= MB && s % MB == 0 => format!("{}M", s / MB),
+                s if s >= KB && s % KB == 0 => format!("{}K", s / KB),
                 s => format!("{s}"),
             }
         }
